@@ -1,3 +1,5 @@
+CONSTANTS
+  Alias = FALSE
 INIT TraceInit
 NEXT TraceNext
 CHECK_DEADLOCK FALSE
